@@ -68,6 +68,12 @@ func NormalizeLoops(fns []*Function, opt UnrollOptions) []string {
 			simplifyPhis(f)
 			removeDeadAggregates(f)
 		}
+		if changed && hasLiftableAlloc(f) {
+			// locals whose address was only taken to be put into a table that is gone now
+			lift(f)
+			rebuild(f)
+			simplifyPhis(f)
+		}
 		if changed {
 			if k := forwardAppendChains(f); k > 0 {
 				notes = append(notes, fmt.Sprintf("%s: %d read(s) of an element of a list built by appends replaced by the appended value", f.String(), k))
@@ -267,8 +273,12 @@ func evalConst(v Value, env map[Value]constant.Value, depth int) (constant.Value
 	return nil, false
 }
 
+// constLenUsed records that the last evaluation needed the length of a local table (see unrollOne).
+var constLenUsed bool
+
 // constLen: the length of a slice of a fixed-size array, an array, or a constant string.
 func constLen(v Value, env map[Value]constant.Value, depth int) (int64, bool) {
+	constLenUsed = true
 	switch x := v.(type) {
 	case *Const:
 		if x.Value != nil && x.Value.Kind() == constant.String {
@@ -420,6 +430,7 @@ func unrollOne(f *Function, opt UnrollOptions) (string, bool) {
 		}
 		size := 0
 		cloneable := true
+		hasCalls := false
 		for b := range l.body {
 			size += len(b.Instrs)
 			for _, ins := range b.Instrs {
@@ -431,7 +442,7 @@ func unrollOne(f *Function, opt UnrollOptions) (string, bool) {
 					// loop may also call constructors
 					isInit := f.Name() == "init" || (len(f.Name()) > 5 && f.Name()[:5] == "init#")
 					if _, isBuiltin := x.Call.Value.(*Builtin); !isBuiltin && opt.DataOnly && !isInit {
-						cloneable = false
+						hasCalls = true
 					}
 				}
 			}
@@ -439,8 +450,14 @@ func unrollOne(f *Function, opt UnrollOptions) (string, bool) {
 		if !cloneable {
 			continue
 		}
+		constLenUsed = false
 		T, ok := tripCount(l, opt.MaxTrip)
 		if !ok || size*(T+1) > opt.MaxInstrs {
+			continue
+		}
+		// a loop that calls out is unrolled only when it walks a local table (its bound is the length of a
+		// composite literal), never when it merely repeats a constant number of times
+		if hasCalls && !constLenUsed {
 			continue
 		}
 		if !outsideUsesOK(f, l) {
@@ -1018,11 +1035,18 @@ func simplifyPhis(f *Function) bool {
 // of a cell that has exactly one store, which dominates the load and is not inside a loop, reads the stored
 // value. This dissolves tables built from composite literals once the loops over them are unrolled.
 func forwardAggregates(f *Function) int {
-	inLoop := map[*BasicBlock]bool{}
-	for _, l := range findLoops(f) {
-		for b := range l.body {
-			inLoop[b] = true
+	// innermost loop of a block (nil outside loops). An aggregate allocated inside a loop is a new object in
+	// every iteration; a store in the same innermost loop that the allocation dominates and that dominates the
+	// load belongs to the same iteration as the load.
+	loops := findLoops(f)
+	innermost := func(b *BasicBlock) *natLoop {
+		var best *natLoop
+		for _, l := range loops {
+			if l.body[b] && (best == nil || len(l.body) < len(best.body)) {
+				best = l
+			}
 		}
+		return best
 	}
 	total := 0
 	for pass := 0; pass < 4; pass++ {
@@ -1030,9 +1054,10 @@ func forwardAggregates(f *Function) int {
 		for _, b := range f.Blocks {
 			for _, ins := range b.Instrs {
 				a, ok := ins.(*Alloc)
-				if !ok || inLoop[b] {
+				if !ok {
 					continue
 				}
+				allocLoop := innermost(b)
 				switch a.Type().(*types.Pointer).Elem().Underlying().(type) {
 				case *types.Array, *types.Struct:
 				default:
@@ -1135,7 +1160,7 @@ func forwardAggregates(f *Function) int {
 						}
 						s = ss[0]
 					}
-					if s == nil || inLoop[s.Block()] {
+					if s == nil || innermost(s.Block()) != allocLoop || !(a.Block() == s.Block() || a.Block().Dominates(s.Block())) {
 						return nil
 					}
 					if s.Block() == load.Block() {
